@@ -83,7 +83,8 @@ func (r *Root) Setter(target Gindex, expand bool) (Link, error) {
 		return Identity, nil
 	}
 	if expand {
-		child := ZeroNode(target.Depth())
+		// the children of the expanded anchor are one level below it
+		child := ZeroNode(target.Depth() - 1)
 		p := NewPairNode(child, child)
 		return p.Setter(target, expand)
 	} else {
